@@ -9,7 +9,9 @@ func VerifC04_Shape() {
 	// base interval of every archive: 0 or aligned (content otherwise arbitrary)
 	w := vrtOpenImage("c04.wsp", img)
 	now := vrtInstant(h, "now")
-	vrtAssumeClock(h, now)
+	last := h.archiveInfoList[na-1]
+	vrt.Assume(int64(now) <= 0xffffffff-4*int64(last.secondsPerPoint)) // T2, upper end of the epoch
+	vrt.Assume(now != 0)                                               // 0 means "use the wall clock"
 	for ai := range h.archiveInfoList {
 		vrtAssumeNear(h, now, sl.t[ai][0]) // T1: base interval within 2^31 s of the clock
 	}
@@ -20,6 +22,26 @@ func VerifC04_Shape() {
 		// best-archive selection measures now-from as an int32 Duration (T1)
 		if from <= now {
 			vrt.Assume(int64(now)-int64(from) <= 0x7fffffff)
+		}
+	}
+	// the archive the statement selects (computed before the call so that the lower T2 bound can
+	// be stated for exactly that archive: the clock is at least one retention of the archive that
+	// answers, plus two of its steps, after the epoch - clocks smaller than the file's maximum
+	// retention are included)
+	refAI := id
+	if id == -1 {
+		refAI = na - 1
+		for i := na - 1; i >= 0; i-- {
+			a := h.archiveInfoList[i]
+			if int64(a.secondsPerPoint)*int64(a.numberOfPoints) >= int64(now)-int64(from) {
+				refAI = i
+			}
+		}
+	}
+	if refAI >= 0 {
+		if refAI < na {
+			ra := h.archiveInfoList[refAI]
+			vrt.Assume(int64(now) >= int64(ra.secondsPerPoint)*int64(ra.numberOfPoints)+2*int64(ra.secondsPerPoint))
 		}
 	}
 	vrt.Reach("pre")
@@ -41,17 +63,7 @@ func VerifC04_Shape() {
 		return
 	}
 	vrt.Assert(err == nil, "C04 fails iff from>until or id out of range (no error expected)")
-	ai := id
-	if id == -1 {
-		// finest archive whose retention reaches back to the requested (unclamped) from
-		ai = na - 1
-		for i := na - 1; i >= 0; i-- {
-			a := h.archiveInfoList[i]
-			if int64(a.secondsPerPoint)*int64(a.numberOfPoints) >= int64(now)-int64(from) {
-				ai = i
-			}
-		}
-	}
+	ai := refAI
 	a := h.archiveInfoList[ai]
 	s := int64(a.secondsPerPoint)
 	ret := s * int64(a.numberOfPoints)
